@@ -144,6 +144,7 @@ type Conn struct {
 	reqout chan *SrvReq
 	rchan  chan *Fcall
 	done   chan bool
+	gone   chan bool // closed when the connection is closed: nobody reads reqout any more
 
 	// stats
 	nreqs   int    // number of requests processed by the server
@@ -417,7 +418,11 @@ func (req *SrvReq) Respond() {
 
 	verifPoint("respond.posted", req)
 	if (status & reqFlush) == 0 {
-		conn.reqout <- req
+		select {
+		case conn.reqout <- req:
+		case <-conn.gone:
+			// the client is gone and so is the sender: drop the reply
+		}
 	}
 
 	verifPoint("respond.queued", req)
